@@ -98,8 +98,10 @@ pub fn build_object<'a, K: AsRef<str>>(
     let mut key_data = Vec::new();
     let mut val_data = Vec::new();
     let mut val_jentries = VecDeque::new();
-    for (key, value) in items.into_iter() {
-        let key = key.as_ref();
+    // the keys of an object must be sorted and unique, the last value of a duplicate key wins.
+    let items: Vec<(K, &'a [u8])> = items.into_iter().collect();
+    let entries: BTreeMap<&str, &'a [u8]> = items.iter().map(|(k, v)| (k.as_ref(), *v)).collect();
+    for (key, value) in entries.into_iter() {
         // write key jentry and key data
         let encoded_key_jentry = (STRING_TAG | key.len() as u32).to_be_bytes();
         buf.extend_from_slice(&encoded_key_jentry);
